@@ -173,7 +173,7 @@ func init() {
 	vx.Register(&vx.Prop{
 		ID:    "C09",
 		Level: "model_checking",
-		Rule: "schedule exploration with a cooperative scheduler (one goroutine runs at a time; scheduling points = every Read / Write the library performs on the harness-owned readers and writers, with reads cut at record boundaries so that every record's add to the File is its own step; the decoding calls are explored again with one-byte reads, i.e. scheduling points inside a record's parsing): 2 threads x 1 call each for every unordered pair of the 16 pool calls with preemption bound 2 (quick) / 4 (thorough), the smallest pairs without bound; 3 threads and 2 calls per thread on selected calls with preemption bound 2 (thorough 3). Oracle: every thread's result equals its solo result; no deadlock; replay of a schedule reproduces the same trace. " +
+		Rule: "schedule exploration with a cooperative scheduler (one goroutine runs at a time; scheduling points = every Read / Write the library performs on the harness-owned readers and writers, with reads cut at record boundaries so that every record's add to the File is its own step; the decoding calls are explored again with one-byte reads, i.e. scheduling points inside a record's parsing): 2 threads x 1 call each for every unordered pair of the 19 pool calls with preemption bound 2 (quick) / 4 (thorough), the smallest pairs without bound; 3 threads and 2 calls per thread on selected calls with preemption bound 2 (thorough 3). Oracle: every thread's result equals its solo result; no deadlock; replay of a schedule reproduces the same trace. " +
 			"Then a separate free-running pass of the same bodies under the Go race detector (8 goroutines, start barrier, repeated rounds); every report is classified by the functions on its stacks. states = distinct global interleavings (traces); transitions = scheduling decisions; traces = executions",
 		Assumptions: []string{"sequentially consistent interleavings at Read/Write granularity; finer-grained interleavings and memory-model effects are left to the free-running race-detector pass, which samples", "accumulated distances are attributed to the listed finding only when the shadow accumulator, fed in the explored interleaving order, predicts them exactly"},
 		Run:         runC09,
@@ -322,6 +322,7 @@ func runC09(w *vx.W) {
 			w.Cap(fmt.Sprintf("execution cap reached for %v after %d executions", opNames(threadOps), execs))
 		}
 		w.Fam(fam, 1)
+		w.Fam(fam+":executions", execs)
 	}
 	var k int64
 	pairBound := 2
@@ -337,6 +338,13 @@ func runC09(w *vx.W) {
 	// (unordered pairs: the exploration covers every interleaving, so {a},{b} and {b},{a} are the same scenario)
 	for a := 0; a < n; a++ {
 		for b := a; b < n; b++ {
+			if w.Quick() && (a >= 16 || b >= 16) {
+				// the long fully-populated streams: in the quick tier only with themselves, each other and two short calls
+				ok := (a >= 16 && b >= 16) || a == 0 || a == 7
+				if !ok {
+					continue
+				}
+			}
 			k++
 			if !w.Mine(k) {
 				continue
@@ -404,7 +412,7 @@ func runC09(w *vx.W) {
 		w.Cap("race-detector binary not available (VX_RACE_BIN unset): free-running pass skipped")
 		return
 	}
-	rounds := 40
+	rounds := 12
 	if !w.Quick() {
 		rounds = 300
 	}
@@ -516,13 +524,15 @@ func c09RacePass(bin string, a, b, rounds int) ([]string, error) {
 	return reports, nil
 }
 
-// raceIsAccumulator: both conflicting accesses are inside the component accumulator code.
+// raceIsAccumulator: both conflicting accesses are made on behalf of (*RecordMsg).expandComponents, the only user
+// of the three listed package-level accumulators (the signature skips the accumulator helper frames, so a new
+// caller of the same helpers is NOT attributed to the finding).
 func raceIsAccumulator(sig string) bool {
 	if sig == "unattributed" {
 		return false
 	}
 	for _, f := range strings.Split(sig, "+") {
-		if !(strings.Contains(f, "expandComponents") || strings.Contains(f, "uint32Accumulator") || strings.Contains(f, "uint32NewAccumulator")) {
+		if f != "(*RecordMsg).expandComponents" {
 			return false
 		}
 	}
@@ -539,12 +549,17 @@ func raceSignature(report string) string {
 		if !(strings.Contains(blk, "by goroutine") && (strings.HasPrefix(strings.TrimSpace(blk), "Write at") || strings.HasPrefix(strings.TrimSpace(blk), "Read at") || strings.HasPrefix(strings.TrimSpace(blk), "Previous"))) {
 			continue
 		}
-		if m := raceFuncRe.FindStringSubmatch(blk); m != nil {
+		// the first fit frame that is not one of the accumulator helpers (i.e. their caller)
+		for _, m := range raceFuncRe.FindAllStringSubmatch(blk, -1) {
 			f := m[1]
+			if f == "(*uint32Accumulator).accumulate" || f == "uint32NewAccumulator" {
+				continue
+			}
 			if !seen[f] {
 				seen[f] = true
 				fns = append(fns, f)
 			}
+			break
 		}
 	}
 	sort.Strings(fns)
@@ -586,7 +601,7 @@ func c09InstrumentedPass(w *vx.W, _ func(threadOps [][]int, bound int, fam strin
 		w.Extra("instrumentation", map[string]interface{}{"scheduling_points": len(meta.Points), "mutable_package_variables": meta.Mutable, "sync_typed": meta.SyncVars, "package_uses_locks_or_atomics": meta.Locks})
 	}
 	pool := opPool()
-	safe := []int{2, 6, 7, 8, 9, 10, 11, 12, 13, 15}
+	safe := []int{2, 6, 7, 8, 9, 10, 11, 12, 13, 15, 18}
 	bound := 2
 	if !w.Quick() {
 		bound = 3
@@ -627,7 +642,7 @@ func c09InstrumentedPass(w *vx.W, _ func(threadOps [][]int, bound int, fam strin
 					w.Note("access conflict on " + v + " not reported: the package uses locks/atomics that the access-level oracle does not model (left to the race-detector pass)")
 					continue
 				}
-				if strings.HasPrefix(v, "accumu") {
+				if c09KnownRacyVars[v] {
 					w.Known("race/accumulators-package-level", d, c09Replay{Race: d})
 				} else {
 					w.Violation("access-conflict/"+v, d, c09Replay{Race: d})
@@ -636,6 +651,9 @@ func c09InstrumentedPass(w *vx.W, _ func(threadOps [][]int, bound int, fam strin
 		}
 	}
 }
+
+// the three package-level accumulators of the listed finding, by exact name (anything else is new)
+var c09KnownRacyVars = map[string]bool{"accumuDistance": true, "accumuTotalCycles": true, "accumuAccumulatedPower": true}
 
 type c09InstrResult struct {
 	Execs        int64               `json:"execs"`
